@@ -457,19 +457,27 @@ between) — for every tree with any hard links between its non-directory nodes:
 in which the inodes are serialised, carries inode number `k + 1`; the slots hold exactly the nodes the DFS numbered,
 each once.  So also with hard links the inode numbers are exactly `1..N` for the `N` inodes the superblock announces,
 no number is used twice, and inodes appear in the inode table in the order of their numbers.
-
-Full statement not proved (`link_targets_before_linking_dirs`): *in the final order every directory comes after all
-its entries' inodes — its children (`children_before_parent` proves this for the DFS order) and the targets of its
-hard-link entries — so that every `inode_ref` a listing stores is known when the listing is written.*  Gap: an
-induction over `reorderGo` showing that a rotation never moves a directory and never moves anything behind a
-directory that was in front of it.  The validator checks the consequence (`entry-ref`, `entry-number`) on every image
-with hard links (tar2sqfs jobs, the `packdir` job) and `num` compares the model's final numbers with the real ones.
 -/
-theorem inode_numbers_dense_after_reorder_partial (cs : List Tree) :
+theorem inode_numbers_dense_after_reorder (cs : List Tree) :
     (postProcess cs).map (·.num) = List.range' 1 (numberRoot cs).2 ∧
     ((postProcess cs).map (·.id)).Perm (numsT (numberRoot cs).1) ∧
     (numsT (numberRoot cs).1).Perm (List.range' 1 (numberRoot cs).2) :=
   ⟨(postProcess_spec cs).1, (postProcess_spec cs).2, numberRoot_perm cs⟩
+
+/--
+The order in which inodes are serialised makes every `inode_ref` a listing stores known when the listing is written:
+for every tree whose hard links name existing non-directory nodes (`resolve_link` refuses anything else), in the final
+order of `fs->inodes` (`Before`: sits in an earlier slot)
+* every node the DFS numbered below a directory — in particular everything inside it (`children_before_parent`) —
+  still comes before that directory (`reorder_hard_links` never moves a directory and never moves anything behind one
+  that was in front of it), and
+* every directory comes after the target of each of its hard-link entries.
+-/
+theorem link_targets_before_linking_dirs (cs : List Tree)
+    (hv : ValidT (filesT (numberRoot cs).1).length (numberRoot cs).1) :
+    (∀ a b, 1 ≤ a → a < b → b ∈ dirNumsT (numberRoot cs).1 → Before (postProcess cs) a b) ∧
+    (∀ d ∈ dirsT (filesT (numberRoot cs).1) (numberRoot cs).1, ∀ x ∈ d.2, Before (postProcess cs) x d.1) :=
+  postProcess_order cs hv
 
 /-- every directory's number is larger than every number inside its subtree (children are serialised, and their
 inode references known, before the parent's listing is written) -/
@@ -593,6 +601,12 @@ example : (writeTable toyCodec 100 [1, 2, 3, 4, 5]).locs = [100] ∧ (writeTable
 
 example : Sqfs.Numbering.numberRoot [.file, .dir [.file, .hlink 0, .dir [.file]], .file] =
     (.dir 7 [.file 4, .dir 5 [.file 2, .hlink 0, .dir 3 [.file 1]], .file 6], 7) := by rfl
+
+/-- its link is valid (file 1 exists), so `link_targets_before_linking_dirs` applies -/
+example : Sqfs.Numbering.ValidT (Sqfs.Numbering.filesT (Sqfs.Numbering.numberRoot [.dir [.hlink 1], .dir [.file], .file]).1).length
+    (Sqfs.Numbering.numberRoot [.dir [.hlink 1], .dir [.file], .file]).1 := by
+  simp [Sqfs.Numbering.numberRoot, Sqfs.Numbering.allocL, Sqfs.Numbering.allocT, Sqfs.Numbering.step2, Sqfs.Numbering.filesT,
+    Sqfs.Numbering.filesL, Sqfs.Numbering.ValidT, Sqfs.Numbering.ValidL]
 
 /-- the DFS numbers the first directory 2 and the file it links 4: the file is rotated in front of the directory
 (slot order 1,4,2,3,5) and everything gets the number of its slot -/
